@@ -1,4 +1,4 @@
-"""C05 — Nested members are converted by their own type's rules (translation validation)."""
+"""C05 — Nested members are converted by their own type's rules (proved compiler model + verified validator per tree)."""
 from __future__ import annotations
 
 import json
@@ -9,7 +9,7 @@ from .. import routines_extract as rx
 from ..runner import Result
 
 ID = "C05"
-LEVEL = "translation_validation"
+LEVEL = "proof"
 LEVEL_TEXT = ("Verified validator, run per generated program. Kernel-checked once and for all (Props/C05.lean): "
               "`adequate_sound_unmarshal` / `adequate_sound_marshal` — a routine tree accepted by the decidable validator "
               "`adequate` for an annotation T computes the compositional denotation um T / mar T on EVERY input and at every "
@@ -33,14 +33,18 @@ LEVEL_TEXT = ("Verified validator, run per generated program. Kernel-checked onc
               "regenerated handler tables. Tied to the code per instance: every extracted tree (root and every Delayed target) "
               "is compared node by node with the model compiler's tree of the same annotation, up to Delayed targets "
               "(coverage.stats compile:*).")
-LEVEL_NOTE = ("Not a proof about typelib's routine compiler for all programs: the validator is proved sound, the programs are "
-              "sampled (count in coverage.programs). Annotations and class environments are wrapper-erased (NewType / alias / "
-              "Final dropped; relating T and erase T is C11). Trusted: Lean kernel; axioms propext, Classical.choice, Quot.sound; "
-              "the extractor harness/routines_extract.py and the decoder Drv/Routine.lean (class name + attributes -> Routine "
-              "constructor); that each routine class's __call__ is what Model/Routine.lean says (tied by the tree-run "
-              "correspondence on every case); the leaf routines (abstract `Leaves`); dispatch of leaf classes re-decided "
-              "against the regenerated tables (leaf_classes_*).")
-TECHNIQUE = ("translation validation: decidable simulation between annotation and extracted routine tree with a Lean 4 soundness "
+LEVEL_NOTE = ("The theorems are about the MODEL of the routine compiler (Model/Compile.lean) and of the routine classes (Model/Routine.lean): "
+              "for every annotation the compiled tree computes the compositional denotation. They reach typelib's own compiler through "
+              "two per-run ties: the node-by-node comparison of every extracted real tree with the model compiler's tree (up to Delayed "
+              "targets: the real library also defers named types met earlier in graph order, which `graph_sound_*` shows is "
+              "immaterial), and the verified validator applied to the real tree itself; programs are sampled (count in "
+              "coverage.programs). Annotations and class environments are wrapper-erased (NewType / alias / Final dropped; relating T "
+              "and erase T is C11). Trusted: Lean kernel; axioms propext, Classical.choice, Quot.sound; the extractor "
+              "harness/routines_extract.py and the decoder Drv/Routine.lean (class name + attributes -> Routine constructor); that each "
+              "routine class's __call__ is what Model/Routine.lean says (tied by the tree-run correspondence on every case); the leaf "
+              "routines (abstract `Leaves`); dispatch of leaf and composite classes re-decided against the regenerated tables "
+              "(leaf_classes_*, compile_dispatch_*).")
+TECHNIQUE = ("Lean 4 theorems (model of the routine compiler proved adequate and sound for every annotation, by induction); translation validation: decidable simulation between annotation and extracted routine tree with a Lean 4 soundness "
              "proof (induction on fuel, mutual list lemmas); differential correspondence; metamorphic member-wise oracle")
 DESIGN_REF = "DESIGN.md §5 C05, §1 item 3"
 MODULES = ["TypelibModel.Props.C05", "TypelibModel.Props.Dispatch"]
